@@ -244,7 +244,7 @@ theorem escQ_id (A : Aut) (hq : ∀ c, isQuote c = true → A.nbad c = true ∧ 
               simp only [Aut.step, hc, if_false] at hst
               by_cases hb : A.nbad c = true
               · simp [hb] at hst
-              · simp only [hb, if_false] at hst; exact (Option.some.inj hst).symm
+              · simp only [hb] at hst; exact (Option.some.inj hst).symm
             | E =>
               simp only [Aut.step] at hst
               by_cases he : A.eok c = true
